@@ -53,6 +53,8 @@ impl Target {
 }
 
 pub struct Pending {
+    /// position inside the pipeline (`execute(Multi)`) that sent it; 0 for single commands
+    pub pos: usize,
     pub args: Vec<Vec<u8>>,
     pub reply: oneshot::Sender<RespVec>,
 }
@@ -94,10 +96,14 @@ impl World {
     }
 
     pub fn arrive(&mut self, conn: usize, args: Vec<Vec<u8>>) -> oneshot::Receiver<RespVec> {
+        self.arrive_at(conn, args, 0)
+    }
+
+    pub fn arrive_at(&mut self, conn: usize, args: Vec<Vec<u8>>, pos: usize) -> oneshot::Receiver<RespVec> {
         let (tx, rx) = oneshot::channel();
         self.events += 1;
         if let Some(c) = self.conns.get_mut(conn) {
-            c.pending.push_back(Pending { args, reply: tx });
+            c.pending.push_back(Pending { pos, args, reply: tx });
         }
         rx
     }
@@ -305,14 +311,14 @@ impl RedisClient for GateClient {
                 OptionalMulti::Multi(v) => (false, v),
             };
             let mut rxs = vec![];
-            for c in cmds {
+            for (pos, c) in cmds.into_iter().enumerate() {
                 let is_ping = c.first().map(|n| n.eq_ignore_ascii_case(b"PING")).unwrap_or(false);
                 if is_ping {
                     let (tx, rx) = oneshot::channel();
                     let _ = tx.send(Resp::Simple(b"PONG".to_vec()));
                     rxs.push(rx);
                 } else {
-                    let rx = world.lock().map_err(|_| RedisClientError::InvalidState)?.arrive(conn, c);
+                    let rx = world.lock().map_err(|_| RedisClientError::InvalidState)?.arrive_at(conn, c, pos);
                     rxs.push(rx);
                 }
             }
